@@ -140,6 +140,12 @@ def gen_ops(rng, n, tier):
                 else:
                     order = [rng.randrange(max(k, 1)) for _ in range(k)]
                 c['order'] = order
+        if op in ('rm', 'gt', 'lt', 'ex', 'mod', 'pat') and k >= 2 and rng.random() < 0.25:
+            # a track that holds one observation object at several positions: a circuit closed with track.addObs(track.getFirstObs()), two laps of the same fixes.
+            # The operators designate POSITIONS: the last m positions hold again the objects of positions again[0..m-1]
+            m = rng.randint(1, min(3, k - 1))
+            c['again'] = [0] if rng.random() < 0.4 else [rng.randrange(k - m) for _ in range(m)]
+            c['k0'] = k - len(c['again'])
         out.append(c)
     return out
 
@@ -147,7 +153,9 @@ def gen_ops(rng, n, tier):
 def run_ops(case):
     from tracklib.core import ObsTime
     k = case['n']
-    t = mk([1000 * i for i in (case.get('order') or range(k))])
+    t = mk([1000 * i for i in (case.get('order') or range(case.get('k0', k)))])
+    for j in case.get('again', []):
+        t.addObs(t.getObs(j))
     op = case['op']
     names0 = t.getListAnalyticalFeatures()
     if op == 'gt':
@@ -195,6 +203,8 @@ def coq_ops(case, obs):
     op = case['op']
     N = lambda l: coq_list(map(str, l)) + '%nat'
     base = '(seq 0 %d)' % k
+    if case.get('again'):
+        base = N(list(range(case['k0'])) + case['again'])
     if op == 'gt':
         e = 'op_gt nat %s (%d)%%Z' % (base, case['a'])
     elif op == 'lt':
@@ -221,6 +231,8 @@ def oracle_ops(case, obs):
     k = case['n']
     op = case['op']
     src = list(range(k))
+    if case.get('again'):
+        src = list(range(case['k0'])) + case['again']
     if op == 'gt':
         exp = src[case['a']:] if case['a'] <= k else []
     elif op == 'lt':
@@ -230,9 +242,9 @@ def oracle_ops(case, obs):
     elif op == 'mod':
         exp = src[::case['s']]
     elif op == 'pat':
-        exp = [i for i in src if case['pat'][i % len(case['pat'])]]
+        exp = [v for i, v in enumerate(src) if case['pat'][i % len(case['pat'])]]
     elif op == 'rm':
-        exp = [i for i in src if i not in case['tab']]
+        exp = [v for i, v in enumerate(src) if i not in case['tab']]
     elif op == 'add':
         exp = src + [100 + i for i in range(case['m'])]
     else:
